@@ -425,3 +425,38 @@ end
 end
 
 end Sv
+
+namespace Sv
+
+/-! ### the decidable part of `GoodNode`, executed by the driver on the model's parse of the inputs of the C04 oracle -/
+
+def activeKindb (K : PpKinds) (x : Tree) : Bool :=
+  x.baseKind == K.textMacroDefinition || x.baseKind == K.textMacroUsage || x.baseKind == K.position
+
+/-- every `define / macro usage / `__FILE__ / `__LINE__ node of the forest carries a token -/
+def goodLeafyb (K : PpKinds) (ts : List Tree) : Bool :=
+  (preL ts).all (fun d => !activeKindb K d || !(leaves d).isEmpty)
+
+theorem goodLeafyb_sound (K : PpKinds) (ts : List Tree) (h : goodLeafyb K ts = true) :
+    ∀ d ∈ preL ts, ActiveKind K d → leafy d := by
+  intro d hd ha
+  have := (List.all_eq_true.mp h) d hd
+  have hk : activeKindb K d = true := by
+    unfold activeKindb; rcases ha with h | h | h <;> simp [h]
+  simp only [hk, Bool.not_true, Bool.false_or, Bool.not_eq_true', List.isEmpty_eq_false_iff] at this
+  exact this
+
+/-- no node of the forest is an `include directive (then the `include arm never runs, whatever `ignore_include` is) -/
+def noIncludeb (K : PpKinds) (ts : List Tree) : Bool := (preL ts).all (fun d => !(d.baseKind == K.includeDirective))
+
+theorem good_of_checks (C : Cfg) (ii : Bool) (ts : List Tree) (h1 : goodLeafyb C.K ts = true) (h2 : noIncludeb C.K ts = true ∨ ii = true) :
+    ∀ d ∈ preL ts, GoodNode C ii d := by
+  intro d hd
+  refine ⟨?_, goodLeafyb_sound C.K ts h1 d hd⟩
+  rcases h2 with h2 | h2
+  · have := (List.all_eq_true.mp h2) d hd
+    simp only [Bool.not_eq_true'] at this
+    simp [this]
+  · simp [h2]
+
+end Sv
